@@ -19,7 +19,7 @@ CHAIN_IDS = ["A", "B", "C", "D", "X", "Y", "Z", "a", "b", "1", "2"]
 
 @st.composite
 def structure(draw, max_chains=3, nmax=6, wild=False, contact=True, waters=True, variants=0.2,
-              hyd=None, missing=False, names=None, nmin=1, oxt=None, start=None, icodes=False):  # fmt: skip
+              hyd=None, missing=False, names=None, nmin=1, oxt=None, start=None, icodes=False, cif=False):  # fmt: skip
     nch = draw(st.integers(1, max_chains))
     ids = draw(st.permutations(CHAIN_IDS))[:nch]
     chains = []
@@ -38,9 +38,16 @@ def structure(draw, max_chains=3, nmax=6, wild=False, contact=True, waters=True,
         if missing and ch["hyd"] == "none" and draw(st.integers(0, 1)) == 0:
             ri = draw(st.integers(0, len(ch["seq"]) - 1))
             ch["drop_spec"] = dict(res=ri, atom=draw(st.integers(0, 30)),
-                                   mode=draw(st.sampled_from(["tail", "tail", "gap"])))  # fmt: skip
+                                   mode=draw(st.sampled_from(["tail", "tail", "gap", "backbone-O"])))  # fmt: skip
         chains.append(ch)
     desc = dict(chains=chains)
+    if cif and draw(st.integers(0, 3)) == 0:
+        # the same structure handed over as mmCIF; half of these with multi-character chain ids
+        desc["cif"] = dict(multi=draw(st.booleans()))
+        for ch in desc["chains"]:
+            ch.pop("altmod", None)
+            if ch["id"].strip() == "":
+                ch["id"] = "Z"
     if waters:
         desc["waters"] = [
             dict(draw(strat.water()), chain="W", seq=300 + k)
@@ -78,6 +85,10 @@ def resolve_drops(desc):
         base = topo.BASE.get(rn, rn)
         t = topo.RES[base]
         side = [a for a in t["atoms"] if topo.heavy(a) and a not in ("N", "CA", "C", "O")]
+        if spec.get("mode") == "backbone-O" and 0 < ri < len(ch["seq"]) - 1:
+            ch["drop"] = [[ri, "O"]]  # carbonyl oxygen of an interior residue (rebuilt from C, CA, N+1)
+            ch["drop_mode"] = "tail"
+            continue
         if not side:
             ch["drop"] = []
             continue
@@ -202,11 +213,35 @@ def normalise(desc, opts=()):
     return desc
 
 
+def structure_to_cif(s, cif):
+    """The materialised structure as mmCIF text (independent G4 writer).  cif = dict(multi=bool):
+    multi-character author chain ids that share their first character (AA, AB, ...), which only
+    mmCIF can express."""
+    from . import cifgen
+
+    ids = []
+    for r in s.records:
+        if r["chain"] not in ids:
+            ids.append(r["chain"])
+    cmap = {c: (("A" + "ABCDEFGH"[k % 8]) if cif.get("multi") else (c if c.strip() else "Z")) for k, c in enumerate(ids)}
+    atoms = []
+    for k, r in enumerate(s.records):
+        atoms.append(dict(rec=r["rec"], serial=k + 1, name=r["name"], alt=r.get("alt", " "), resn=r["resn"], chain=cmap[r["chain"]],
+                          label_chain="ABCDEFGHIJ"[ids.index(r["chain"]) % 10], seq=r["seq"], icode=r.get("icode", " "),
+                          xyz=r["xyz"], occ=1.0, b=10.0, elem=r["name"].lstrip("0123456789")[0], charge="", model=1,
+                          label_seq=(r["group"][2] + 1) if r["group"][0] in ("chain", "na") else r["seq"]))  # fmt: skip
+    return cifgen.cif_text(atoms), cmap
+
+
 def run_case(desc, ff, opts, **kw):
     normalise(desc, opts)
     s = build.materialise(desc)
     args = ([] if "--clean" in opts else [f"--ff={ff}"]) + list(opts)
-    r = pipeline.run(s.text(), args, **kw)
+    if desc.get("cif"):
+        text, s.cif_chain_map = structure_to_cif(s, desc["cif"])
+        r = pipeline.run(text, args, ext="cif", **kw)
+    else:
+        r = pipeline.run(s.text(), args, **kw)
     return s, r
 
 
